@@ -5,7 +5,8 @@ Bit-level part proved here (the entropy decoder is outside this model): the
 concatenator's header and trailer surgery is exact at the bit level.
 
 Property theorems ONLY (helper lemmas: BV/Lemmas/ConcatBits.lean, ConcatSplice.lean, ConcatMember*.lean,
-ConcatWhole.lean, ConcatChain.lean).
+ConcatWhole.lean, ConcatChain.lean, ConcatFraming.lean, ConcatStored.lean, ConcatAgree.lean;
+the RFC framing reader `BV.HeaderSpec` is another worker's module, imported unchanged).
 Model: BV/Model/Concat.lean; `bitsOf n v` is the LSB-first bit string of the low
 `n` bits of `v`, `bytesToBits` the bit string of a byte string,
 `encodeWindowBits` mirrors `EncodeWindowBits` of `src/enc/encode.rs`.
@@ -13,6 +14,7 @@ Model: BV/Model/Concat.lean; `bitsOf n v` is the LSB-first bit string of the low
 import BV.Lemmas.ConcatBits
 import BV.Lemmas.ConcatSplice
 import BV.Lemmas.ConcatChain
+import BV.Lemmas.ConcatAgree
 
 namespace BV.Props.C03
 open BV.Concat BV.Concat.Outcome
@@ -355,5 +357,142 @@ example : ∃ R, concatAll 30 State.new [([[0x8b, 0x01], [0x80, 0x03, 0x61, 0x62
       ([[0x3b], [0x00, 0x00, 0x00, 0x03]], [1, 0, 2])] [] = some R ∧ R.code = NEEDS_MORE_INPUT ∧
     R.emitted ++ held R.st = [0x8b, 0x01, 0x80, 0x03, 0x61, 0x62, 0x63, 0x03, 0x00, 0x00, 0x00, 0x03] := by
   refine ⟨_, rfl, ?_, ?_⟩ <;> decide
+
+/-! ## decode level: members made of stored / metadata meta-blocks
+
+`BV.HeaderSpec.readWbits` / `readMetaBlock` / `decodeFraming` are the RFC 7932 framing reader
+written independently of the Rust code.  `StoredBytes m w lg bl` (BV.Concat): the bits of `m`
+are a window field (window `w`, large-window form iff `lg`), then the meta-blocks `bl` — each
+read by `readMetaBlock` as metadata or uncompressed —, then the empty last meta-block, and
+nothing after its padding.  `LaterInput w₀ lg₀ m bl`: such a member with at least one block,
+window ≤ `w₀`, same header form, at least two bytes behind the look-ahead, and the
+concatenator's own header check (`detect_varlen_offset` on the look-ahead, end of the first
+meta-block header inside the look-ahead) passes. -/
+
+open BV.HeaderSpec in
+/-- the concatenator's header parsers agree with the RFC reader (no assumption about any
+encoder): `parse_window_size` returns the window and the number of bits `readWbits` consumes;
+`detect_varlen_offset`, whenever it accepts, returns the end of the first meta-block header
+that `readMetaBlock` reads (metadata or uncompressed) -/
+theorem parsers_agree_with_rfc (m : List Nat) (w : Nat) (lg : Bool) (r : List Bool)
+    (hb : ∀ y, y ∈ m → y < 256) (hlen : need (m.headD 0) ≤ m.length)
+    (h : readWbits (bytesToBits m) = some (w, lg, r)) :
+    parseWindowSize (m.take (need (m.headD 0))) = ok (some (w, (bytesToBits m).length - r.length)) :=
+  parse_agrees m w lg r hb hlen h
+
+/-- payload bytes of the uncompressed meta-blocks: the decoded content as far as framing goes -/
+def contentOf : List BV.HeaderSpec.MetaBlock → List Nat
+  | [] => []
+  | .raw p :: rest => p ++ contentOf rest
+  | _ :: rest => contentOf rest
+
+theorem contentOf_append (a b : List BV.HeaderSpec.MetaBlock) : contentOf (a ++ b) = contentOf a ++ contentOf b := by
+  induction a with
+  | nil => rfl
+  | cons x t ih => cases x <;> simp [contentOf, ih]
+
+theorem contentOf_flatten (bls : List (List BV.HeaderSpec.MetaBlock)) :
+    contentOf bls.flatten = (bls.map contentOf).flatten := by
+  induction bls with
+  | nil => rfl
+  | cons b t ih => simp [contentOf_append, ih]
+
+open BV.HeaderSpec in
+/-- `concat_stored_decodes`.  First member `m₀` and later members `ms`, all made of a window
+header, metadata / uncompressed meta-blocks and the empty last meta-block (as read by the RFC
+framing reader), windows non-increasing, same header form, the first block's header of every
+later member inside the look-ahead.  For ANY slicing of the members into input buffers and
+ANY output capacities: every `stream` call ends with `NeedsMoreInput`, `finish` reports
+`Success`, and the RFC reader decodes the complete output `out` as ONE stream with the first
+member's window and the meta-blocks of all members in order, terminated by a single empty
+last meta-block:  `decodeFraming out = blocks₀ ++ blocks₁ ++ … ++ blocks_k ++ [lastEmpty]`.
+Hence the content (uncompressed payloads) of the output is the concatenation of the members'
+contents.  No assumption about the encoder that produced the members is used. -/
+theorem concat_stored_decodes (fuel : Nat) (s : State) (m0 : List Nat) (w0 : Nat) (lg0 : Bool)
+    (bl0 : List MetaBlock) (bufs0 : List (List Nat)) (caps0 : List Nat) (ms : List (List Nat))
+    (bls : List (List MetaBlock)) (rest : List (List (List Nat) × List Nat)) (R : Run) (cap : Nat)
+    (hI : Inv s) (hws : s.window_size = 0)
+    (h0 : StoredBytes m0 w0 lg0 bl0) (hlong0 : need (m0.headD 0) + 1 ≤ m0.length)
+    (hne0 : bufs0 ≠ []) (hfl0 : bufs0.flatten = m0)
+    (hlater : LaterInputs w0 lg0 ms bls) (hfed : FedBytes ms rest) (hcap : 2 ≤ cap)
+    (hrun : concatAll fuel s ((bufs0, caps0) :: rest) [] = some R) :
+    R.code = NEEDS_MORE_INPUT ∧
+    ∃ st out r wbits, finish R.st cap = ok ⟨st, SUCCESS, 0, out⟩ ∧
+      readWbits ((R.emitted ++ out).flatMap (BV.Bits.bitsOf 8)) = some (w0, lg0, r) ∧
+      decodeFraming (bl0.length + bls.flatten.length + 1) wbits r
+        = some (bl0 ++ bls.flatten ++ [MetaBlock.lastEmpty]) ∧
+      wbits + r.length = ((R.emitted ++ out).flatMap (BV.Bits.bitsOf 8)).length ∧
+      contentOf (bl0 ++ bls.flatten ++ [MetaBlock.lastEmpty]) = contentOf bl0 ++ (bls.map contentOf).flatten := by
+  obtain ⟨wb0, F0, k0, hsm⟩ := storedMember_of_bytes m0 w0 lg0 bl0 h0
+  have hla : need (m0.headD 0) ≤ m0.length := by omega
+  have hrw := (storedMember_decodes _ _ _ _ _ _ _ hsm).1
+  have hparse := parse_agrees m0 w0 lg0 _ hsm.bytes hla hrw
+  have hwbl : (bytesToBits m0).length - (F0 ++ [true, true] ++ BV.Framing.zeros k0).length = wb0.length := by
+    rw [hsm.bits]; simp [List.append_assoc]
+  rw [hwbl] at hparse
+  have hw30 : w0 ≤ 30 := by
+    have hl : 2 ≤ (m0.take (need (m0.headD 0))).length := by
+      rw [List.length_take]; unfold need at hlong0 ⊢; split at hlong0 <;> split <;> omega
+    have := parseWindowSize_sat _ hl
+    rw [hparse, sat_ok] at this
+    exact (this w0 wb0.length rfl).2.1
+  obtain ⟨ds, eds, hall⟩ := laterAll_of_inputs w0 lg0 hw30 ms bls hlater
+  have hflag : (if lg0 then LARGE_WINDOW_FLAG else 0) = (if wb0.length = 14 then LARGE_WINDOW_FLAG else 0) := by
+    cases hl : lg0 with
+    | true => have := hsm.lgiff.mp hl; simp [this]
+    | false =>
+      have : ¬ wb0.length = 14 := fun e => by have := hsm.lgiff.mpr e; rw [hl] at this; simp at this
+      simp [this]
+  simp only [hflag] at hall
+  have hfed' : Fed ds rest := fed_of_bytes ds rest (by rw [eds]; exact hfed)
+  obtain ⟨hc, st, p, r, hf, hr1, hO, hr2⟩ := stored_output_decodes fuel s m0 w0 lg0 bl0 wb0 F0 k0 bufs0 caps0 ds bls rest R
+    cap hI hws hsm hlong0 hparse hne0 hfl0 hall hfed' hcap hrun
+  refine ⟨hc, st, p, r, wb0.length, hf, by rw [flatMap_bits_eq]; exact hr1, hr2, ?_, ?_⟩
+  · rw [flatMap_bits_eq, hO, List.length_append]
+  · rw [contentOf_append, contentOf_append, contentOf_flatten]
+    simp [contentOf]
+
+open BV.HeaderSpec BV.Framing in
+/-- non-vacuity: the stored stream `21 03 10 00 08 01 02 03 03` (what `MakeUncompressedStream`
+produces for the input `01 02 03`: window 10, an empty metadata block, one uncompressed block,
+the empty last block) meets both member predicates -/
+example : StoredBytes [0x21, 0x03, 0x10, 0x00, 0x08, 1, 2, 3, 0x03] 10 false [.metadata [], .raw [1, 2, 3]] ∧
+    LaterInput 10 false [0x21, 0x03, 0x10, 0x00, 0x08, 1, 2, 3, 0x03] [.metadata [], .raw [1, 2, 3]] := by
+  have hb : ∀ y, y ∈ [0x21, 0x03, 0x10, 0x00, 0x08, 1, 2, 3, 0x03] → y < 256 := by decide
+  have hst : StoredBytes [0x21, 0x03, 0x10, 0x00, 0x08, 1, 2, 3, 0x03] 10 false [.metadata [], .raw [1, 2, 3]] := by
+    refine ⟨hb, ([0x21, 0x03, 0x10, 0x00, 0x08, 1, 2, 3, 0x03].flatMap (BV.Bits.bitsOf 8)).drop 7, 64,
+      ([0x21, 0x03, 0x10, 0x00, 0x08, 1, 2, 3, 0x03].flatMap (BV.Bits.bitsOf 8)).drop 64, 72, by decide, ?_, by decide⟩
+    refine FramesTo.cons _ _ _ 16 (([0x21, 0x03, 0x10, 0x00, 0x08, 1, 2, 3, 0x03].flatMap (BV.Bits.bitsOf 8)).drop 16)
+      _ _ _ (by decide) ⟨fun m l => by simp, by simp⟩ ?_
+    refine FramesTo.cons _ _ _ 64 (([0x21, 0x03, 0x10, 0x00, 0x08, 1, 2, 3, 0x03].flatMap (BV.Bits.bitsOf 8)).drop 64)
+      _ _ _ (by decide) ⟨fun m l => by simp, by simp⟩ ?_
+    exact FramesTo.nil _ _
+  exact ⟨hst, ⟨10, hst, by decide⟩, by decide, by decide, ⟨13, by decide, by decide⟩⟩
+
+/-! ## does `Success` imply a terminated stream? -/
+
+/-- `success_implies_marked` in the form that holds: when `finish` runs on a stripped tail (the
+last announced members were too short to carry a header) it re-creates the end marker — the
+output ends with `[1,1]` and zero padding (`append_inverts_strip`); and when the last accepted
+member is a well-formed stream its own marker ends the output (`concat_bits`,
+`concat_stored_decodes`).  The unconditional claim is FALSE: `finish` reports `Success` for
+any accepted bytes, e.g. the single member `8b 01 80 03 61 62 63 54` (parsable header, no end
+marker) is passed through verbatim and the output ends `… 63 54`. -/
+theorem success_implies_marked_counterexample :
+    ((stream (newBrotliFile State.new) [0x8b, 0x01, 0x80, 0x03, 0x61, 0x62, 0x63, 0x54] 100).bind fun r1 =>
+     (finish r1.st 8).bind fun r2 => ok (r1.code, r1.produced ++ r2.produced, r2.code))
+      = ok (NEEDS_MORE_INPUT, [0x8b, 0x01, 0x80, 0x03, 0x61, 0x62, 0x63, 0x54], SUCCESS) ∧
+    ¬ ∃ (X : List Bool) (k : Nat), k < 8 ∧
+      bytesToBits [0x8b, 0x01, 0x80, 0x03, 0x61, 0x62, 0x63, 0x54] = X ++ [true, true] ++ List.replicate k false := by
+  refine ⟨by decide, ?_⟩
+  rintro ⟨X, k, hk, h⟩
+  have hl := congrArg List.length h
+  simp only [List.length_append, List.length_cons, List.length_nil, List.length_replicate] at hl
+  have hlen : (bytesToBits [0x8b, 0x01, 0x80, 0x03, 0x61, 0x62, 0x63, 0x54]).length = 64 := by decide
+  rw [hlen] at hl
+  have hd := congrArg (List.drop (62 - k)) h
+  rw [List.append_assoc, List.drop_left' (by omega)] at hd
+  have hk' : k = 0 ∨ k = 1 ∨ k = 2 ∨ k = 3 ∨ k = 4 ∨ k = 5 ∨ k = 6 ∨ k = 7 := by omega
+  rcases hk' with rfl | rfl | rfl | rfl | rfl | rfl | rfl | rfl <;> revert hd <;> decide
 
 end BV.Props.C03
